@@ -191,6 +191,11 @@ def bindConv (v : Str) : Str :=
   | some r => r
   | none => v
 
+/-- value written for bind attribute `attr` (survey_element.py xml_bindings: the yes/no conversion applies to
+    `constants.CONVERTIBLE_BIND_ATTRIBUTES` only, on every element kind) -/
+def bindValue (attr v : Str) : Str :=
+  if (sl Pyxv.Gen.convertibleBindAttributes).contains attr then bindConv v else v
+
 /-! ### sheet selection of the file backends -/
 
 /-- Python `d[k] = v`: replace in place or append -/
